@@ -1,7 +1,9 @@
 From Coq Require Import Arith NArith Bool List.
-Require Import Canon SemTk TableProto BddBase BddIte BddCR BddSat BddCof BddCtor BddReach Glue History RunProto.
+Require Import Canon SemTk TableProto BddBase BddIte BddCR BddSat BddCof BddCof2 BddCtor BddEval BddPaths BddReach BddExport BddDot Glue Hashes Machine.
 From Coq Require Extraction ExtrOcamlBasic.
-Definition run_cfg (bm cm cap : N) (fuel : nat) (h : list hop) := run nhash khash fuel (init bm cm cap, nil) h.
-Definition step_cfg (fuel : nat) (sr : state * regs) (o : hop) := step nhash khash fuel sr o.
-Definition init_cfg (bm cm cap : N) : state * regs := (init bm cm cap, nil).
-Extraction "model.ml" run_cfg step_cfg init_cfg show.
+(* The executable model handed to the correspondence harness: the register machine of Machine.v instantiated with the
+   crate's hash functions (Hashes.v) and memo tables.  No Extract Constant / Extract Inductive beyond ExtrOcamlBasic. *)
+Definition step_cfg (fuel : nat) (mr : mstate * regs) (o : hop) :=
+  @step nhash khash memo_ref memo_dm memo_nref memo_refN fuel mr o.
+Definition init_cfg (bm cm sm cap : N) : mstate * regs := (init bm cm sm cap, nil).
+Extraction "model.ml" step_cfg init_cfg.
